@@ -283,14 +283,39 @@ def check(prog, rep, tier):
             rep.bad("C04.lookup-within-run", f"{CTX}._contained_at_loc", "found without a remainder match", "an index is returned on a path that never compared the stored remainder with r", cl.where(p.exit[2]))
             okl = False
             break
+        occ = [c for c in p.conds if not c.loops and strip_epochs(c.atom)[0] == "cmp" and strip_epochs(c.atom)[3] == C(0)
+               and strip_epochs(c.atom)[2] == ("ret", "Bitarray.check_bit", "S", ()) or
+               (not c.loops and strip_epochs(c.atom)[0] == "cmp" and strip_epochs(c.atom)[2][0] == "ret" and strip_epochs(c.atom)[2][1].endswith("Bitarray.check_bit")
+                and strip_epochs(c.atom)[2][3] == (("f", SELF, "_is_occupied", 0), ("p", "q")) and strip_epochs(c.atom)[3] == C(0))]
+        if not occ or ((strip_epochs(occ[0].atom)[1] == "==") == occ[0].truth):
+            rep.bad("C04.lookup-within-run", f"{CTX}._contained_at_loc", "hit without the occupied test",
+                    "a hit is reported on a path that has not established is_occupied[q] == 1: for a quotient with no run the scan lands in a foreign run and an equal remainder there is "
+                    "mistaken for the key", cl.where(p.exit[2]))
+            okl = False
+            break
         if not still:
             rep.bad("C04.lookup-within-run", f"{CTX}._contained_at_loc", "match accepted without the run-boundary test",
                     "a slot whose remainder equals r is reported as a hit on a path that has not established that the scan is still inside the element's own run "
                     "(the second run start was not excluded): the first element of the NEXT run can be mistaken for the key, so add drops a new key / check reports a never-added hash", cl.where(p.exit[2]))
             okl = False
             break
+    # the run counter used by that test moves by +1 exactly at run starts (slots whose continuation bit is clear)
+    if okl:
+        for p in paths(prog, CTX, cl):
+            inc = [e for e in p.events if e.kind == "accum"]
+            cont0 = [c for c in p.conds if c.loops and strip_epochs(c.atom)[0] == "cmp" and strip_epochs(c.atom)[3] == C(0) and strip_epochs(c.atom)[2][0] == "ret"
+                     and strip_epochs(c.atom)[2][3][0] == ("f", SELF, "_is_continuation", 0)]
+            if not cont0:
+                continue
+            at_run_start = (strip_epochs(cont0[0].atom)[1] == "==") == cont0[0].truth
+            good = (len(inc) == 1 and inc[0].op == "+" and inc[0].addend == C(1)) if at_run_start else not inc
+            if not good:
+                rep.bad("C04.lookup-within-run", f"{CTX}._contained_at_loc", f"run counter at run start={at_run_start}: {[(e.op, nshow(e.addend)) for e in inc]}",
+                        "the counter of run starts met by the scan does not move by exactly +1 at a slot whose continuation bit is clear (and only there): the run-boundary test is ineffective", cl.where())
+                okl = False
+                break
     if okl and seen:
-        rep.ok("C04.lookup-within-run", f"{CTX}._contained_at_loc: hit only with starts != 2 established")
+        rep.ok("C04.lookup-within-run", f"{CTX}._contained_at_loc: hit only with is_occupied[q], starts != 2 established; starts += 1 exactly at run starts")
     rme = prog.method(CTX, "_remove_element")
     oko, nsolo, nmulti = True, 0, 0
     qp = ("p", "q")
@@ -381,6 +406,9 @@ MUTANTS = [
     Mutant("lookup compares the remainder before the run-boundary test", _Q,
            seq(del_stmt("QuotientFilter", "_contained_at_loc", "if self._filter[start_idx] == r"),
                insert_stmt("QuotientFilter", "_contained_at_loc", "if self._filter[start_idx] == r:\n    return start_idx", before="if starts == 2 or")), rule="C04.lookup"),
+    Mutant("lookup without the occupied test", _Q, del_stmt("QuotientFilter", "_contained_at_loc", "if self._is_occupied[q] == 0"), rule="C04.lookup"),
+    Mutant("lookup run counter decremented", _Q, replace_stmt("QuotientFilter", "_contained_at_loc", "starts += 1", "starts -= 1"), rule="C04.lookup"),
+    Mutant("lookup scans one run too far", _Q, replace_expr("QuotientFilter", "_contained_at_loc", "starts == 2", "starts == 3"), rule="C04.lookup"),
     Mutant("fast removal path leaves the quotient marked occupied", _Q, del_stmt("QuotientFilter", "_remove_element", "if remove_orig_idx"), rule="C04.run-emptied"),
     Mutant("main removal path leaves the quotient marked occupied", _Q, del_stmt("QuotientFilter", "_remove_element", "if remove_orig_idx", nth=1), rule="C04.run-emptied"),
     Mutant("mask spelled % size (same meaning)", _Q, replace_stmt("QuotientFilter", "_remove_element", "next_idx = idx + 1 & self.__mod_size", "next_idx = (idx + 1) % self._size"), expect="silent"),
